@@ -318,6 +318,34 @@ def handlePreFix : STCfg → Store → Msg → Outcome := handleF true
 
 end New
 
+/-! ## keyword arguments of a run delayed by `state_hold`
+
+(the timing of the delay is C05's subject; here: WHICH dict the delayed run receives) -/
+
+namespace Legacy
+
+/-- `trigger_watch` with `state_hold`: two cooperating sites.  When a true evaluation starts a hold the loop stores
+`state_trig_notify_info = notify_info` and then executes `func_args.update(user_kwargs)` – on the SAME dict object that
+sits inside the stored `notify_info` – before it `continue`s.  When the hold expires (`state_trig_timeout`) it takes
+`new_vars, func_args = state_trig_notify_info`; `user_kwargs` is still the empty dict of the loop head, so the final
+`func_args.update(user_kwargs)` in front of `call_action` adds nothing.
+Deviation flag `mergeAtHoldStart` (DESIGN §4): current value `true`. -/
+def heldRunF (mergeAtHoldStart : Bool) (c : STCfg) (ev : Ev) : Run :=
+  let stored := if mergeAtHoldStart then dictUpdate (baseArgs ev) c.kwargs else baseArgs ev
+  ⟨ev.ctx, dictUpdate stored []⟩
+
+def heldRun : STCfg → Ev → Run := heldRunF true
+
+end Legacy
+
+namespace New
+
+/-- `_check_state_hold` → `TriggerDecorator.dispatch`: `data.func_args.update(self.kwargs.get("kwargs", {}))` is
+applied at dispatch time to `last_func_args` (the arguments remembered when the hold started) -/
+def heldRun (c : STCfg) (ev : Ev) : Run := ⟨ev.ctx, dictUpdate (baseArgs ev) c.kwargs⟩
+
+end New
+
 /-! ## the transition system -/
 
 inductive Step where
